@@ -13,7 +13,7 @@ CHECKS = {
          "from_timestamp / _millis / _micros / _nanos and the zone-generic wrappers are compared, case by case, with floor division on an i128 instant and an independent calendar (fields, acceptance, read-back, timestamp_nanos_opt absence exactly outside 64 bits); the reverse direction builds date-times from calendar fields and checks every accessor and the SystemTime round trip. Millions of cases per run, biased to range ends, the i64-nanosecond window, negative sub-second counts and leap nanosecond fields.",
          "Trusted base: R-cal / R-inst (harness/src/refmodel). SystemTime values are built independently with UNIX_EPOCH +/- Duration.",
          "DESIGN.md section 3 C02"),
- "C03": ("proptest (date-times biased to range ends/year ends, durations aimed exactly at MAX-a / MIN-a, day counts to u64::MAX, iterator traversals near the range ends) differential against i128 instant arithmetic",
+ "C03": ("proptest (date-times biased to range ends/year ends, durations aimed exactly at MAX-a / MIN-a, day counts to u64::MAX, iterator traversals near the range ends) differential against i128 instant arithmetic; model-based iterator histories (next/next_back/nth/nth_back/skip/take/rev/len) against a cursor model",
          "checked_add/sub_signed, signed_duration_since, operators (incl. std Duration and assign forms) on NaiveDateTime, NaiveDate and DateTime<FixedOffset>, checked_add/sub_days and the day/week iterators are compared with exact i128 arithmetic on instants and day numbers; failure is demanded exactly when the exact result is unrepresentable and operators must panic exactly then. Sampled with boundary-aimed generators, not exhaustive.",
          "Trusted base: R-cal / R-inst; operand values are built through constructors that C01/C07 verify.",
          "DESIGN.md section 3 C03"),
@@ -21,7 +21,7 @@ CHECKS = {
          "Construction from UTC and from wall clock, naive_local (documented panic exactly outside the range), every Datelike/Timelike accessor, Display/Debug, zone conversion, equality/order/hash on the instant (also across Utc/FixedOffset), all eleven with_* replacements, day/month stepping, with_time and with_ymd_and_hms are compared with a model that applies the operation to the wall-clock reading and accepts iff the new instant lies in [MIN_UTC, MAX_UTC]; no returned value may lie outside that interval. One thin band (an edit that would create a new wall date in the headroom) accepts None or the exact value, as DESIGN.md explains.",
          "Trusted base: R-cal and the 10-line shift model in harness/src/props/c04.rs. Offsets are whole seconds so the nanosecond field is never touched by the model.",
          "DESIGN.md section 3 C04"),
- "C05": ("proptest over structured zone models written by a reference TZif writer (v1/v2/v3, 0-40 spaced or tight transitions, fixed/alternate footers), over POSIX TZ rules (all day forms, both hemispheres, negative DST, extended times) and over the system zoneinfo files read by an independent reader; probes dense around every transition; differential against the RFC 8536 step-function model R-zone",
+ "C05": ("proptest over structured zone models written by a reference TZif writer (v1/v2/v3, 0-40 spaced or tight transitions, fixed/alternate footers), over POSIX TZ rules (all day forms, both hemispheres, negative DST, extended times) and over the system zoneinfo files read by an independent reader; probes dense around every transition; differential against the RFC 8536 step-function model R-zone; child-process sub-check driving every public Local route (TZ = generated rule or system zone) against R-zone",
          "For every zone the offset reported at an instant must be the one the zone data prescribe; instant -> wall clock -> back must contain the instant (Single, or two distinct candidates earliest first); wall times occurring once/twice/never must give Single/Ambiguous(earliest, latest)/None (the three boundary seconds the statement exempts are only checked for the round trip). Driven through the guarded read-only hook (zone from bytes / TZ string, the two lookups); the public Local route is exercised by C18.",
          "Trusted base: R-zone (harness/src/refmodel/zone.rs: offset_at, rule evaluator, preimage, TZif writer/reader, TZ parser), validated at development time against CPython's zoneinfo on all 600 system zones (130,268 offset and fold/gap comparisons, 0 mismatches; tools/validate_zone_model.py). Domain: offsets inside (-24 h, 24 h); consecutive transitions far enough apart that their skipped/repeated wall-clock intervals do not overlap; rule transitions more than a day inside the year with the same start/end order every year.",
          "DESIGN.md section 3 C05"),
@@ -49,7 +49,7 @@ CHECKS = {
          "Writer output must equal the reference rendering (correct weekday) and parse back to the same whole-second instant (second 60 preserved) and offset. Every grammar-generated string must be accepted with exactly the denoted value, both by parse_from_rfc2822 and by the Fixed::RFC2822 format item, and its twin with a contradicting weekday must be rejected. For mutated/arbitrary text only: no panic, and agreement with the reference reader when both accept (the statement claims nothing about rejection there).",
          "Trusted base: harness/src/refmodel/rfc2822.rs (independent reader written from the grammar comment) and R-cal; the generator's intended value is cross-checked against the reference reader on every case.",
          "DESIGN.md section 3 C11"),
- "C12": ("exhaustive sweep of the documented specifier table x 4 padding modifiers over a fixed value list (first/last 10 days of years covering all 14 year types, signed and 5-6 digit years, leap seconds, offsets with seconds) + proptest random format strings incl. must-fail shapes and multi-byte literals, differential against an independent reference strftime (R-fmt)",
+ "C12": ("exhaustive sweep of the documented specifier table x 4 padding modifiers over a fixed value list (first/last 10 days of years covering all 14 year types, signed and 5-6 digit years, leap seconds, offsets with seconds) + proptest random format strings incl. must-fail shapes and multi-byte literals, differential against an independent reference strftime (R-fmt); every other public rendering route (item lists borrowed/owned, DelayedFormat constructors, write_to, deprecated free functions) compared with format()",
          "Every documented specifier with every modifier is rendered for thousands of values of all four formattable kinds (date, time, naive date-time, zone-aware incl. headroom wall clocks) and compared character by character with a reference renderer written from the documentation table; random format strings built from specifiers, literals, white space, %% and malformed specifiers must either render exactly the reference text or fail exactly when the reference says so (unknown/malformed specifier, modifier on a non-numeric or composite specifier, field the value lacks).",
          "Trusted base: harness/src/refmodel/strftime.rs (tokenizer + renderer, ~300 lines) and R-cal. Not asserted (documentation silent): %y/%g for negative years, %Z for offsets with seconds, %#z when formatting; the sign/padding interplay follows the stated assumption in the evidence.",
          "DESIGN.md section 3 C12"),
@@ -57,7 +57,7 @@ CHECKS = {
          "For every generated (format, value) pair the text produced by format() is parsed back with parse_from_str / parse_and_remainder of the matching type and must equal the value truncated to what the format prints (minutes, seconds, 3/6/9 fraction digits; leap second kept iff seconds are printed); letter case of names and am/pm is flipped and white space widened at random. %#z is exercised read-only, %::z/%:::z/%Z print-only (no panic).",
          "Trusted base: the format family generator (harness/src/props/c13.rs) only emits formats whose fields determine the value (separators between variable-width numbers, no letters in separators); the expected precision comes from harness/src/refmodel/strftime.rs's tokenizer.",
          "DESIGN.md section 3 C13"),
- "C14": ("exhaustive enumeration of all 16,384 subsets of the 14 date fields for a list of dates + proptest over subsets of all 21 fields derived from a real value (incl. range-end values), with 1-3 fields corrupted or drawn independently; soundness/completeness/error-class oracle from R-cal field derivation",
+ "C14": ("exhaustive enumeration of all 16,384 subsets of the 14 date fields for a list of dates + proptest over subsets of all 21 fields derived from a real value (incl. range-end values), with 1-3 fields corrupted or drawn independently; soundness/completeness/error-class oracle from R-cal field derivation; proptest over a custom one-step TimeZone (skipped / repeated wall clocks) for to_datetime_with_timezone",
          "Setters must accept exactly the documented ranges (and equal-value idempotence); every Ok result of to_naive_date, to_naive_time, to_naive_datetime_with_offset, to_datetime and to_datetime_with_timezone must agree with every supplied field (second 60 <-> leap second, timestamp equal or +1 on a leap second); uncorrupted, determinate, sufficient sets must resolve to exactly the value, uncorrupted insufficient sets must give NOT_ENOUGH, sufficient contradictory sets IMPOSSIBLE or OUT_OF_RANGE; nothing may panic.",
          "Trusted base: field derivation and sufficiency rules in harness/src/props/c14.rs (from the documented list of sufficient combinations) and R-cal. Not judged (statement silent): century/two-digit fields on negative years, indeterminate year groups, a leap-second value without its second field, a timestamp with a missing non-zero second.",
          "DESIGN.md section 3 C14"),
@@ -65,15 +65,15 @@ CHECKS = {
          "Every listed operation must return normally for every generated argument tuple, and every value it returns must satisfy its type's invariants as observable through the public API (date equals the date of its own fields and lies in [MIN, MAX], time fields in range, DateTime within [MIN_UTC, MAX_UTC], TimeDelta in its closed range). Iterating StrftimeItems::new / new_lenient over any format string must stop within a bound proportional to its length (deterministic, no timer) and report Item::Error exactly for invalid strings. The monitor also wraps every chrono call of the other nineteen checks, so their generated inputs count here as well.",
          "Trusted base: harness/src/guard.rs (catch_unwind + silent hook) and the invariant predicates in harness/src/props/c15.rs; the harness and the fuzz targets are built with debug assertions and overflow checks on. Hangs other than the item-stream bound surface only as the driver's watchdog (exit 2).",
          "DESIGN.md section 3 C15"),
- "C16": ("proptest: model-driven TZif files (v1/v2/v3, 0-2000 transitions, extreme 64-bit times) and grammar-driven TZ strings that must be accepted with an identical structural dump; twenty classes of structured mutations and fifteen TZ-string defects that must be rejected; byte-flipped/header-randomised/arbitrary bytes; exhaustive strict prefixes of sampled files; every system zoneinfo file; panic monitor + counting allocator",
+ "C16": ("proptest: model-driven TZif files (v1/v2/v3, 0-2000 transitions, extreme 64-bit times) and grammar-driven TZ strings that must be accepted with an identical structural dump; twenty classes of structured mutations and fifteen TZ-string defects that must be rejected; byte-flipped/header-randomised/arbitrary bytes; exhaustive strict prefixes of sampled files; every system zoneinfo file; panic monitor + counting allocator; files with leap-second records and rule-aligned last transitions that must be accepted and read back exactly",
          "Accepted inputs: the hook's structural dump (transition times/type indices, types, footer rule) must equal exactly what the reference writer wrote, and for system files what the independent reader reads. Rejected inputs: each mutation introduces one defect by construction (truncation, magic/version, count mismatch or extreme, unsorted/duplicate transitions, index out of bounds, unterminated abbreviation, dst byte, forbidden indicator pair, five footer defects, utoff = i32::MIN, trailing byte) and must yield Err. All inputs: no panic, peak heap <= 16 x input + 64 KiB (per-thread counting global allocator), and every accepted zone answers both lookups at i64 extremes, at chrono's MIN/MAX and around its transitions without panicking. Thorough tier adds libFuzzer targets tzif/tzstring with the same oracle.",
          "Trusted base: reference TZif writer/reader and TZ grammar in harness/src/refmodel/zone.rs (validated against CPython's zoneinfo), the counting allocator in harness/src/alloc_track.rs. Hangs would surface as the driver's watchdog (exit 2), not as violations.",
          "DESIGN.md section 3 C16"),
- "C17": ("proptest over stamps inside/outside the i64-nanosecond window, log-uniform/tie-making/invalid spans, offsets and digit counts, differential against floor/ceil arithmetic on i128 wall-clock stamps",
+ "C17": ("proptest over stamps inside/outside the i64-nanosecond window, log-uniform/tie-making/invalid spans, offsets and digit counts, differential against floor/ceil arithmetic on i128 wall-clock stamps; DateTime route vs NaiveDateTime route differential on leap readings",
          "duration_trunc/round/round_up on NaiveDateTime and DateTime<FixedOffset> must return exactly floor/ceil/nearest-ties-up multiples of the span on the wall-clock stamp with the offset kept, be idempotent while the result stays inside the window, and report DurationExceedsLimit / TimestampExceedsLimit exactly for the three stated causes, never panicking (incl. headroom wall clocks); round_subsecs/trunc_subsecs on NaiveTime, NaiveDateTime and DateTime for all digit counts with carry. Leap-second operands: no panic, valid values, sub-second idempotence only.",
          "Trusted base: i128 div_euclid arithmetic (harness/src/props/c17.rs).",
          "DESIGN.md section 3 C17"),
- "C18": ("stateful generation: histories = vec(op) over set/unset TZ (absolute path, :path, zone name, :name, POSIX rule, empty, garbage, missing file), waits on both sides of 1 s, conversions in both directions on the long-lived thread and on fresh threads (free sequences + scenario templates); each history runs in its own child process; an interpreter with the R-zone models of every source is the oracle",
+ "C18": ("stateful generation: histories = vec(op) over set/unset TZ (absolute path, :path, zone name, :name, POSIX rule, empty, garbage, missing file), waits on both sides of 1 s, conversions in both directions on the long-lived thread and on fresh threads (free sequences + scenario templates); each history runs in its own child process; an interpreter with the R-zone models of every source is the oracle; children run in a directory of decoy files so that relative names can only resolve in the zoneinfo directories",
          "Every conversion in every history must be answered entirely by one zone: the zone the environment names now when the conversion runs on a new thread or at least 1 s (+60 ms margin) after the last change, otherwise any zone that was in force during the last second. Custom zone files have pairwise different offsets before/after a common transition so a single answer identifies the zone; wall-clock probes lie inside their gaps/folds so a mixed answer is visible. The wall clock is only a stimulus: inside the window both answers are accepted, so jitter cannot raise an alarm. The whole history shrinks as one value (bounded shrink budget because each run costs real sleeps).",
          "Trusted base: R-zone and the 60-line interpreter in harness/src/props/c18.rs. Sandbox limit: /etc/localtime is Etc/UTC, so the system-zone and UTC fallbacks coincide. Races between set_var and a concurrent conversion are outside this technique (and outside safe Rust's contract for set_var).",
          "DESIGN.md section 3 C18"),
